@@ -252,8 +252,8 @@ fn check_time_parse(ctx: &mut Ctx, max_len: usize) {
 
 fn main() {
     let run = Run::from_args("C18");
-    let td_len = run.pick(5, 6);
-    let dt_len = run.pick(4, 5);
+    let td_len = run.pick(5, 7);
+    let dt_len = run.pick(4, 6);
     if let Some(path) = &run.replay {
         let stored = load_replay(path).unwrap_or_else(|e| {
             eprintln!("MACHINERY-ERROR: {e}");
